@@ -26,3 +26,34 @@ use crate::engine::{DynProp, Wrap};
 pub fn all() -> Vec<Box<dyn DynProp>> {
     vec![Box::new(Wrap(c01::C01)), Box::new(Wrap(c02::C02)), Box::new(Wrap(c03::C03)), Box::new(Wrap(c04::C04)), Box::new(Wrap(c05::C05)), Box::new(Wrap(c06::C06)), Box::new(Wrap(c07::C07)), Box::new(Wrap(c08::C08)), Box::new(Wrap(c09::C09)), Box::new(Wrap(c10::C10)), Box::new(Wrap(c11::C11)), Box::new(Wrap(c12::C12)), Box::new(Wrap(c13::C13)), Box::new(Wrap(c14::C14)), Box::new(Wrap(c15::C15)), Box::new(Wrap(c16::C16)), Box::new(Wrap(c17::C17)), Box::new(Wrap(c18::C18)), Box::new(Wrap(c19::C19)), Box::new(Wrap(c20::C20))]
 }
+
+/// In-target entry of the coverage-guided tier of the tape-generated checks (C01, C02): the bytes
+/// are a tape of 16-bit choices, decoded by the same function the property check generates its
+/// cases with; the oracle is the check's own `judge`. `Err((signature, detail, replay))` for a
+/// violation that is not a listed known finding; `replay` is the case in the format of
+/// `./check <ID> --replay`.
+pub fn fuzz_tape(id: &str, data: &[u8]) -> Result<(), (String, String, serde_json::Value)> {
+    use crate::engine::{known::Known, Case, TypedProp};
+    static INIT: std::sync::Once = std::sync::Once::new();
+    static KNOWN: std::sync::OnceLock<Known> = std::sync::OnceLock::new();
+    INIT.call_once(|| crate::engine::install_panic_hook(true));
+    let known = KNOWN.get_or_init(Known::load);
+    let tape: Vec<u16> = data.chunks_exact(2).map(|c| u16::from_le_bytes([c[0], c[1]])).collect();
+    let (case, v) = match id {
+        "C01" => {
+            let c = c01::case_from_tape(&tape);
+            let v = crate::engine::guarded(|| c01::C01.judge(&c));
+            (c.to_json(), v)
+        }
+        "C02" => {
+            let c = c02::case_from_tape(&tape);
+            let v = crate::engine::guarded(|| c02::C02.judge(&c));
+            (c.to_json(), v)
+        }
+        _ => panic!("no tape decoder for {id}"),
+    };
+    match v.fail {
+        Some(f) if known.matches(id, &f.sig).is_none() => Err((f.sig, f.detail, serde_json::json!({"property": id, "case": case}))),
+        _ => Ok(()),
+    }
+}
